@@ -222,6 +222,16 @@ C17Clause(st) ==
        ELSE (IF st.bykw # "" THEN "keyword_call." ELSE "")
             \o (IF st.after > st.host THEN "bases_and_siblings_unchanged." ELSE "class_overload_set.") \o c
 
+(* C03 through the generated value dispatchers (functions and methods with self): the bodies entered  *)
+(* receive exactly the argument objects supplied (the harness records them by identity) and the        *)
+(* instance as self; the delegation chain receives what was delegated.                                 *)
+C03VClause(st) ==
+  LET E == st.obs.entered IN
+  IF st.obs.slf # "ok" THEN "value_dispatch.self_threaded"
+  ELSE IF Len(E) > 0 /\ E[1].call # st.call THEN "value_dispatch.arguments_intact"
+  ELSE IF \E j \in 2..Len(E) : E[j-1].next.has /\ E[j].call # E[j-1].next.call THEN "value_dispatch.arguments_intact.delegated"
+  ELSE LET c == C01Clause(st) IN IF c = "" THEN "" ELSE "value_dispatch." \o c
+
 StepClause(st) ==
   LET c1 == IF "C01" \in Props THEN C01Clause(st) ELSE ""
       c2 == IF "C02" \in Props THEN C02Clause(st) ELSE ""
@@ -232,6 +242,7 @@ StepClause(st) ==
       c14 == IF "C14" \in Props THEN C14Clause(st) ELSE ""
       c17 == IF "C17" \in Props THEN C17Clause(st) ELSE ""
       c7v == IF "C07V" \in Props THEN C07VClause(st) ELSE ""
+      c3v == IF "C03V" \in Props THEN C03VClause(st) ELSE ""
       c10 == IF "C10" \in Props THEN C10Clause(st)
              ELSE IF "C10G" \in Props THEN
                   (IF \E q \in DOMAIN st.obs.predlog : ~Sat(W, st.obs.predlog[q].t.bound, st.obs.predlog[q].a.c)
@@ -244,6 +255,7 @@ StepClause(st) ==
      ELSE IF c10 # "" THEN "C10:" \o c10
      ELSE IF c17 # "" THEN "C17:" \o c17
      ELSE IF c7v # "" THEN "C07:" \o c7v
+     ELSE IF c3v # "" THEN "C03:" \o c3v
      ELSE IF c1 # "" THEN "C01:" \o c1
      ELSE IF c2 # "" THEN "C02:" \o c2
      ELSE IF c7 # "" THEN "C07:" \o c7
@@ -335,7 +347,9 @@ Consume ==
          co == ClsOnly(MOf(st))
          \* value worlds under the context sweep (C06): the Impl layer of value dispatch must predict every context
          ic == IF co THEN ImplConsistent(st)
-               ELSE IF "C06" \in Props /\ DepOnly(MOf(st)) THEN ImplValueConsistent(st) ELSE TRUE
+               ELSE IF "C06" \in Props /\ c # "" /\ DepOnly(MOf(st))
+                    THEN ImplValueConsistent(st) /\ ImplValueConsistent(Case.steps[1])   \* the rejected context and the base
+                    ELSE TRUE
          \* outside class-only worlds the signature alone decides (no Impl prediction available);
          \* it needs at least two supplied positions there (the cross-position form of the artefact)
          \* the level artefact is repaired; the only signature left is the rank artefact of dependent methods (C10)
